@@ -63,7 +63,7 @@ def gen(rng, tier, i):
             s = {'mode': 'repo'} if rng.random() < 0.25 else wavegen.gen_order_sched(rng)
             pairs.append({'kind': 'gpu', 'sched': s, 'block': wavegen.gen_block(rng)})
         elif kind == 'lanes':
-            n2 = rng.choice([sims, sims + 1, sims + 3, max(1, sims - 1), 9])
+            n2 = rng.choice([sims, sims + 1, sims + 3, max(1, sims - 1), 9, 9, 33])
             perm = list(range(n2)); rng.shuffle(perm)
             lane_map = [perm[l] if l < n2 else None for l in range(sims)]
             pairs.append({'kind': 'lanes', 'sims2': n2, 'lane_map': lane_map, 'cls': rng.choice(['cpu', 'gpu'])})
@@ -78,11 +78,11 @@ def gen(rng, tier, i):
                 mode = rng.choice([0, 1])
                 pairs.append({'kind': 'dataset', 'mode': mode, 'j': rng.randrange(n_sets), 'per_lane': [rng.randrange(n_sets) for _ in range(sims)], 'cls': rng.choice(['cpu', 'gpu'])})
     case['pairs'] = pairs
-    lsims = rng.choice([1, 3, 8, 9, 13, 20])
-    n2 = rng.choice([lsims, lsims + 1, lsims + 8, 24])
+    lsims = rng.choice([1, 3, 8, 9, 13, 16, 20, 33])
+    n2 = rng.choice([lsims, lsims + 1, lsims + 8, 24, 40, 64, 65])
     perm = list(range(n2)); rng.shuffle(perm)
     case['logic'] = {'m': rng.choice([2, 4, 8]), 'sims': lsims, 'vals': [rng.randrange(8) for _ in range(rng.randint(3, 23))],
-                     'sims2': n2, 'lane_map': [perm[l] for l in range(lsims)], 'cycles': rng.choice([1, 1, 2, 3])}
+                     'sims2': n2, 'lane_map': [perm[l] if l < n2 else None for l in range(lsims)], 'cycles': rng.choice([1, 1, 2, 3])}
     return case
 
 
@@ -270,7 +270,7 @@ def logic_pairs(built, lc, res):
     # lane count / lane position (fault-free differential)
     n2 = int(lc['sims2'])
     lm = lc['lane_map']
-    mv2 = lsim.mv_stimulus(s_len, n2, m, lc['vals'], lane_map=lm, lanes=sims)
+    mv2 = lsim.mv_stimulus(s_len, n2, m, lc['vals'], lane_map=lm, lanes=sims)      # lanes mapped to None do not exist in the second simulator
     o = run(n2, mv2, False, False)
     res.count('faultfree_logic_lane_pairs')
     for cy, (a, b) in enumerate(zip(ref, o)):
